@@ -56,6 +56,7 @@ func runSmall(c *core.Ctx) []core.Obligation {
 	smallCompactLongFormAccepted(c, b)
 	smallTokenizerStringFastPath(c, b)
 	smallClaimedBytesWritten(c, b)
+	smallLineSeparatorsAlwaysEscaped(c, b)
 	smallStringOptionNull(c, b)
 	smallStringOptionMarshaler(c, b)
 	return b.out
@@ -974,6 +975,77 @@ func smallRawVarintByte(c *core.Ctx, b *ob) {
 	}
 	if n == 0 {
 		b.addP(props, core.Discharged, "raw-varint-byte:none", "proto", "no integer is written as a raw byte outside encodeVarint: every length and tag goes through the varint encoder")
+	}
+}
+
+// S31 — encoding/json escapes U+2028 and U+2029 in strings unconditionally (they are valid JSON
+// but break JSONP), whatever SetEscapeHTML says; only <, > and & depend on the setting. In
+// encodeString the code that writes the \u202x escape must not sit under the EscapeHTML test.
+func smallLineSeparatorsAlwaysEscaped(c *core.Ctx, b *ob) {
+	props := []string{"C01", "C14"}
+	key := "string:u2028-escaped-unconditionally"
+	fn := c.Lookup("json.(encoder).encodeString")
+	if fn == nil {
+		b.addP(props, core.Undecided, key, "-", "json.(encoder).encodeString not found")
+		return
+	}
+	htmlBit := jsonConst(c, "EscapeHTML")
+	n, bad := 0, ""
+	for _, blk := range fn.Blocks {
+		for _, in := range blk.Instrs {
+			call, ok := in.(*ssa.Call)
+			if !ok {
+				continue
+			}
+			bi, isB := call.Call.Value.(*ssa.Builtin)
+			if !isB || bi.Name() != "append" || len(call.Call.Args) != 2 {
+				continue
+			}
+			k, isK := call.Call.Args[1].(*ssa.Const)
+			if !isK || k.Value == nil || k.Value.Kind() != constant.String || constant.StringVal(k.Value) != `\u202` {
+				continue
+			}
+			n++
+			// conditions known to hold where the escape is written: the flag test itself (or its
+			// negation) among them makes the escape conditional on the setting. (The false edge
+			// of the printable-ASCII fast path, which mentions the flag, dominates everything
+			// below it and says nothing.)
+			isFlagTest := func(a ssa.Value) bool {
+				if u, ok := a.(*ssa.UnOp); ok && u.Op == token.NOT {
+					a = u.X
+				}
+				bo, ok := a.(*ssa.BinOp)
+				if !ok || (bo.Op != token.NEQ && bo.Op != token.EQL) {
+					return false
+				}
+				for _, op := range []ssa.Value{bo.X, bo.Y} {
+					if and, isAnd := op.(*ssa.BinOp); isAnd && and.Op == token.AND {
+						if k, isK := constUint(and.Y); isK && k == htmlBit && htmlBit != 0 {
+							return true
+						}
+					}
+				}
+				return false
+			}
+			for _, a := range trueAtoms(blk, 0) {
+				if isFlagTest(a) {
+					bad = c.InstrPos(call)
+				}
+			}
+			for _, e := range dominatingEdges(blk) {
+				if isFlagTest(e.ifi.Cond) {
+					bad = c.InstrPos(call)
+				}
+			}
+		}
+	}
+	switch {
+	case n == 0:
+		b.addP(props, core.Violation, key, c.FuncPos(fn), "encodeString never writes the \\u202x escape: U+2028 and U+2029 are copied through where encoding/json escapes them")
+	case bad != "":
+		b.addP(props, core.Violation, key, bad, "encodeString escapes U+2028/U+2029 only on a path that depends on the EscapeHTML flag: with SetEscapeHTML(false) they are copied through, where encoding/json escapes them under every setting")
+	default:
+		b.addP(props, core.Discharged, key, c.FuncPos(fn), "the \\u202x escape does not depend on EscapeHTML")
 	}
 }
 
